@@ -18,7 +18,7 @@ func init() {
 func (mediumEngine) Worker(c workerCfg) *evid.Stats {
 	return mediumsim.Worker(mediumsim.Config{Prop: c.Prop, Tier: c.Tier, Seed: c.Seed, W: c.W, NW: c.NW,
 		Deadline: time.Now().Add(c.Budget), RepoDir: c.Repo, Scratch: c.Scratch, Known: c.Known,
-		Journal: c.Journal, EmitAt: c.EmitAt, EmitOut: c.EmitOut})
+		Journal: c.Journal, EmitAt: c.EmitAt, EmitOut: c.EmitOut, StopAt: c.StopAt})
 }
 
 func (mediumEngine) Exec(prop string, raw json.RawMessage, c workerCfg) (*evid.Violation, error) {
@@ -26,6 +26,9 @@ func (mediumEngine) Exec(prop string, raw json.RawMessage, c workerCfg) (*evid.V
 }
 
 func (mediumEngine) Minimise(prop string, v evid.Violation, still func(json.RawMessage) bool) (json.RawMessage, []string) {
+	if historyOf(v.Case) != nil {
+		return nil, nil
+	}
 	return mediumsim.Minimise(prop, v, still)
 }
 
